@@ -137,7 +137,7 @@ func programCase(k *engine.Case, prof *profile) {
 		m := []int{0, n / 2, n, n + 1, n + 9, 2*n + 3}[k.R.Intn(6)]
 		data := make([]byte, m)
 		fill(data, byte('a'+len(sibs)))
-		sb.Write(data)
+		writeOwn(sb, data)
 		sibs = append(sibs, sibling{sb, data})
 		k.Logf("(another buffer: NewSizedBuffer(%d) with %d bytes %q written)", n, m, byte('a'+len(sibs)-1))
 	}
@@ -233,6 +233,15 @@ func (p *prog) start() {
 	}
 }
 
+// writeOwn hands Write a slice of the caller's own and then reuses that slice for
+// something else, as callers do: Write must have copied what it was given.
+func writeOwn(b buffer, data []byte) (int, error) {
+	c := append([]byte(nil), data...)
+	n, err := b.Write(c)
+	fill(c, 0x5A)
+	return n, err
+}
+
 func fill(b []byte, c byte) {
 	for i := range b {
 		b[i] = c
@@ -276,8 +285,7 @@ func (p *prog) gen() *step {
 		st.need = n
 		st.desc = fmt.Sprintf("Write(%s %s)", sty, fmtBytes(data))
 		st.run = func(b buffer) (string, []byte) {
-			c := append([]byte(nil), data...)
-			n, err := b.Write(c)
+			n, err := writeOwn(b, data)
 			return fmt.Sprintf("n=%d err=%s", n, errText(err)), nil
 		}
 	case opWriteString:
@@ -509,6 +517,10 @@ func (p *prog) genSrc(pk peek, L int, invalid bool) *srcSpec {
 	if r.Intn(8) == 0 {
 		sp.zeroAt = r.Intn(n + 1)
 		sp.zeros = 1 + r.Intn(3)
+		if r.Intn(3) == 0 {
+			// a source that stays silent for a long stretch before it goes on
+			sp.zeros = 90 + r.Intn(200)
+		}
 	}
 	if invalid {
 		sp.negAt = r.Intn(n + 1)
